@@ -102,7 +102,7 @@ PFF(ev, sg, c, D, H, its, li) ==
       cntD(k) == Count(Dk, LAMBDA y : y = k)
       loK(k) == SumSeq([i \in DOMAIN its |-> IF Rk[i] = k THEN lo(its[i]) ELSE 0])
       hiK(k) == SumSeq([i \in DOMAIN its |-> IF Rk[i] = k THEN hi(its[i]) ELSE 0])
-      cand(it) == it.tick = li.etick /\ it.trk = li.etrk /\ it.k \notin {"sysex", "loopend"}
+      cand(it) == it.tick = li.etick /\ it.trk = li.etrk /\ it.k \notin {"sysex", "sysex7", "loopend"}
       finite == ~c.loopEn \/ n >= 0
       times == [i \in DOMAIN D |-> D[i][2]]
       drops == { i \in 2..Len(times) : times[i] < times[i - 1] }
